@@ -80,7 +80,8 @@ def run_tlc(module, cfg, workers=4, timeout=1800, env_extra=None, java_opts="", 
             extra_args=None, simulate=None, out_path=None):
     """Run TLC; returns dict(out=str, rc, generated, distinct, wall).  Output may be large: if out_path is
     given the raw output is streamed there and `out` holds only non-EDGE lines."""
-    md = metadir or os.path.join(WORK, "tlc", "%s-%s-%d" % (module, os.path.basename(cfg), os.getpid()))
+    import uuid
+    md = metadir or os.path.join(WORK, "tlc", "%s-%s-%d-%s" % (module, os.path.basename(cfg), os.getpid(), uuid.uuid4().hex[:8]))
     shutil.rmtree(md, ignore_errors=True)
     os.makedirs(md, exist_ok=True)
     cmd = ["tlc", "-workers", str(workers), "-metadir", md, "-cleanup", "-noGenerateSpecTE", "-config", cfg]
